@@ -105,7 +105,7 @@ def seeds():
 
 def run(ctx):
     import time
-    only = os.environ.get("GV_C01_ONLY", "abcd")
+    only = os.environ.get("GV_C01_ONLY", "abcde")
     total = 0
     t0 = time.time()
     total += part_ab(ctx, only)
@@ -114,6 +114,10 @@ def run(ctx):
     if "c" in only:
         total += part_c(ctx)
     print(f"  [c01] c {time.time()-t0:.1f}s total={total}", flush=True)
+    t0 = time.time()
+    if "e" in only:
+        total += part_e(ctx)
+    print(f"  [c01] e {time.time()-t0:.1f}s total={total}", flush=True)
     t0 = time.time()
     if "d" in only:
         total += part_d(ctx)
@@ -127,7 +131,8 @@ def run(ctx):
     ctx.sample({"space": "ladder", "example": "'(' * 10000 + '1' + ')' * 10000 via garden check"})
     return (f"(a) every string of length <= {la} over a {len(SIGMA_C)}-character alphabet incl. multi-byte and Unicode whitespace; (b) every sequence of <= {lb} lexemes over "
             f"{len(SIGMA_T)} lexemes joined by every combination of space/newline (length 2 also glued); (c) every single-token delete/insert/replace over the edit alphabet and every "
-            "truncation, at every token of every .gdn file in the repository (within the seed size bound); (d) a nesting ladder of 26 self-embedding constructs through the real CLI. "
+            "truncation, at every token of every .gdn file in the repository (within the seed size bound); (e) an error snippet at every column with every neighbouring line of a pool "
+            "of ASCII/multi-byte/wide lines (the diagnostics are rendered with their source excerpt, as the CLI prints them); (d) a nesting ladder of 26 self-embedding constructs through the real CLI. "
             "Oracle: lex+parse+(check iff no parse errors)+format complete without panic/abort/signal/timeout. Non-trivial = everything beyond single alphabet elements.")
 
 
@@ -211,6 +216,49 @@ def part_c(ctx):
     ctx.bound("edit_seeds", nseeds)
     total += nedit
     return total
+
+
+def part_e(ctx):
+    """(e) diagnostic rendering: an error at every column of a line, with every neighbour line from a pool of ASCII / multi-byte /
+    wide-character lines of every small length: the CLI prints the source lines around an error with carets under it."""
+    errors = ["nosuch()", ")", '"unterminated', "1 +", "let = 3", "x.", "fun f(", "1 2 ) 3", "nosuch_é()" if False else "nosuch(1, 2)"]
+    neigh = [""]
+    for ch in ("a", "é", "€", "😀", "\t", " "):
+        for k in (1, 2, 3, 5, 8, 13):
+            neigh.append(ch * k)
+            neigh.append("// " + ch * k)
+            neigh.append('"' + ch * k + '"')
+    cols = list(range(0, 14)) if ctx.quick else list(range(0, 30))
+    srcs = []
+    for e in errors:
+        for c in cols:
+            for nb in neigh:
+                line = " " * c + e
+                srcs.append(line + "\n" + nb + "\n")
+                srcs.append(nb + "\n" + line + "\n" + nb)
+                srcs.append("  é😀 " * (c % 3) + line + "\n" + nb)
+    srcs = sorted(set(srcs))
+    ctx.bound("rendering_family", {"error_snippets": len(errors), "columns": len(cols), "neighbour_lines": len(neigh)})
+    jobs = [{"op": "front_many", "srcs": srcs[i:i + 300]} for i in range(0, len(srcs), 300)]
+    res = ctx.pool.map(jobs, batch=1, timeout=300)
+    n = 0
+    for job, r in zip(jobs, res):
+        if "count" not in r:
+            singles = ctx.pool.map([{"op": "front_many", "srcs": [x]} for x in job["srcs"]], batch=1, timeout=20)
+            for x, r1 in zip(job["srcs"], singles):
+                n += 1
+                if "count" not in r1:
+                    ctx.violation(f"front end dies rendering a diagnostic ({'timeout' if 'timeout' in r1 else 'crash'})", {"src": x, "result": r1}, cli_cmd="garden check <file>")
+                else:
+                    for f in r1["failures"]:
+                        ctx.violation(f"panic in {f['stage']}: {norm_panic(f['panic'])}", {"src": x, "panic": f["panic"], "space": "rendering"}, cli_cmd=cli_for(f["stage"]))
+            continue
+        n += r["count"]
+        ctx.outcome("rendering:parse_ok", r["parse_ok"])
+        ctx.outcome("rendering:parse_errors", r["count"] - r["parse_ok"])
+        for f in r["failures"]:
+            ctx.violation(f"panic in {f['stage']}: {norm_panic(f['panic'])}", {"src": job["srcs"][f["i"]], "panic": f["panic"], "space": "rendering"}, cli_cmd=cli_for(f["stage"]))
+    return n
 
 
 def part_d(ctx):
